@@ -534,7 +534,7 @@ pub fn all_props() -> Vec<PropDef> {
             id: "C14",
             engine: EngineKind::Seq,
             level: "exploration",
-            decisive: &["point", "snapshot", "scan", "reopen", "ingest"],
+            decisive: &["point", "snapshot", "scan", "reopen", "ingest", "conc", "deadlock"],
             quick_runs: 3000,
             thorough_runs: 40000,
             rule: "ingestions of sorted batches (values and tombstones) interleaved with writes issued between ingestion() and finish(), snapshots before/in between/after, flush, compaction, reopen. Non-trivial: ingestion finished while memtables held data, or >=2 ingestions.",
